@@ -261,6 +261,12 @@ func (g *psGen) decorateList(items []ListItem, distract func() []ListItem, allow
 				i++
 				continue
 			}
+			if allowBrace && g.r.Chance(1, 4) {
+				// nested: the poryswitch is itself the content of a selected case
+				if w2 := g.wrapItems([]ListItem{w}, distract, true); w2.PS != nil {
+					w = w2
+				}
+			}
 			out = append(out, w)
 			i += n
 			continue
